@@ -124,7 +124,7 @@ Theorem dyn_accessors_gated tm sp v :
      acc_set (gen_dyn m) a dd v =
        (Build_dyn (Some (Build_tmachine (tm_state tm) (tm_ctx tm) (slot_set (ss_field sp) (Some v) (tm_slots tm)))), None) /\
      acc_read a (fst (acc_set (gen_dyn m) a dd v)) = Some v /\
-     acc_read a (fst (acc_write a dd v)) = Some v /\
+     (exists old, acc_read a dd = Some old /\ acc_read a (fst (acc_write a dd v)) = Some (old + v)) /\
      (forall sp', In sp' (m_storage m) -> ss_field sp' <> ss_field sp ->
         slot_get (ss_field sp') (slot_set (ss_field sp) (Some v) (tm_slots tm)) = slot_get (ss_field sp') (tm_slots tm))) /\
   (* otherwise nothing changes and the error names the expected state, the actual state, the operation *)
@@ -150,7 +150,7 @@ Proof.
     split. { split; [intros _; exact Est|intros _; discriminate]. }
     split. { split; [intros _; exact Est|intros _; reflexivity]. }
     split.
-    { intros _. split; [reflexivity|]. split; [reflexivity|]. split; [reflexivity|].
+    { intros _. split; [reflexivity|]. split; [reflexivity|]. split; [exists v0; split; reflexivity|].
       intros sp' _ Hne. apply slot_get_set_other. exact Hne. }
     intros Hne. contradiction.
   - assert (Est : tm_state tm <> ss_state sp) by (intros E; apply Hmem in E; congruence).
